@@ -449,7 +449,7 @@ class Gen:
 
     def enum(self, base=None):
         rnd = self.rnd
-        base = base or rnd.choice(["uint8", "int8", "uint16", "uint32", "int16", "uint64"])
+        base = base or rnd.choice(["uint8", "int8", "uint16", "uint32", "int16", "uint64", "uint24", "int24", "uint48", "int128"])
         flag = rnd.random() < 0.4
         if flag and INTS[base][1]:
             base = "u" + base  # flags over signed bases with negative values are finding F19; exercised by C12
